@@ -60,8 +60,9 @@ using std::size_t;
 // The maximum number of digits that sprintf can put in a buffer.
 // 100 for now.  We're using this because we want to avoid transcoding
 // number strings when we don't have to,
-// Large enough for the largest double printed with "%.35f": 309 integer
-// digits, the decimal point, 35 fraction digits and a sign.
+// Large enough for every double printed by DoubleToFixedString(): a sign,
+// 309 integer digits, the decimal point and 20 fraction digits for the
+// largest values; a sign, "0." and 342 fraction digits for the smallest.
 const size_t    MAX_PRINTF_DIGITS = 350;
 
 // The maximum number of characters for a floating point number.
@@ -1346,36 +1347,51 @@ TranscodeNumber(
 
 
 
-static const char* const    thePrintfStrings[] =
+// Writes a finite, non-zero value to the buffer in fixed notation ("%.Nf"),
+// with the smallest number of fraction digits N, from 10 on, that reads back
+// as the same value, and returns the number of characters written.
+//
+// N depends on the magnitude: a value below 2^-k has floor(k * log10(2))
+// zeros after the decimal point before its first significant digit, and 17
+// significant digits identify any double, so N never exceeds that number of
+// zeros plus 20 (342 for the smallest denormalized value).  The formats
+// with fewer digits than that number of zeros can only print zero and are
+// not tried.
+static int
+DoubleToFixedString(
+            double  theValue,
+            char    theBuffer[MAX_PRINTF_DIGITS + 1])
 {
-    "%.10f",
-    "%.11f",
-    "%.12f",
-    "%.13f",
-    "%.14f",
-    "%.15f",
-    "%.16f",
-    "%.17f",
-    "%.18f",
-    "%.19f",
-    "%.20f",
-    "%.21f",
-    "%.22f",
-    "%.23f",
-    "%.24f",
-    "%.25f",
-    "%.26f",
-    "%.27f",
-    "%.28f",
-    "%.29f",
-    "%.30f",
-    "%.31f",
-    "%.32f",
-    "%.33f",
-    "%.34f",
-    "%.35f",
-    0
-};
+    using std::snprintf;
+    using std::atof;
+    using std::frexp;
+
+    int     theExponent = 0;
+
+    // |theValue| < 2^theExponent
+    frexp(theValue, &theExponent);
+
+    // 0.30102 < log10(2): a lower bound for the number of leading zeros.
+    const int   theLeadingZeros =
+        theExponent < 0 ? int(-theExponent * 30102L / 100000L) : 0;
+
+    const int   theMaxPrecision = theLeadingZeros + 20;
+
+    int     thePrecision = theLeadingZeros > 10 ? theLeadingZeros : 10;
+
+    int     theCharsWritten = 0;
+
+    do
+    {
+        theCharsWritten = snprintf(theBuffer, MAX_PRINTF_DIGITS + 1, "%.*f", thePrecision, theValue);
+        assert(theCharsWritten > 0 && size_t(theCharsWritten) <= MAX_PRINTF_DIGITS);
+
+        ++thePrecision;
+    }
+    while(atof(theBuffer) != theValue && thePrecision <= theMaxPrecision);
+
+    return theCharsWritten;
+}
 
 
 
@@ -1443,22 +1459,9 @@ DOMStringHelper::NumberToCharacters(
     {
         char            theBuffer[MAX_PRINTF_DIGITS + 1];
 
-        using std::sprintf;
-        using std::atof;
         using std::isdigit;
 
-        const char* const *     thePrintfString = thePrintfStrings;
-
-        int     theCharsWritten = 0;
-
-        do
-        {
-            theCharsWritten = sprintf(theBuffer, *thePrintfString, theValue);
-            assert(theCharsWritten != 0);
-
-            ++thePrintfString;
-        }
-        while(atof(theBuffer) != theValue && *thePrintfString != 0);
+        int     theCharsWritten = DoubleToFixedString(theValue, theBuffer);
 
         // First, cleanup the output to conform to the XPath standard,
         // which says no trailing '0's for the decimal portion.
@@ -1743,22 +1746,9 @@ NumberToDOMString(
     {
         char            theBuffer[MAX_PRINTF_DIGITS + 1];
 
-        using std::sprintf;
-        using std::atof;
         using std::isdigit;
 
-        const char* const *     thePrintfString = thePrintfStrings;
-
-        int     theCharsWritten = 0;
-
-        do
-        {
-            theCharsWritten = sprintf(theBuffer, *thePrintfString, theValue);
-            assert(theCharsWritten != 0);
-
-            ++thePrintfString;
-        }
-        while(atof(theBuffer) != theValue && *thePrintfString != 0);
+        int     theCharsWritten = DoubleToFixedString(theValue, theBuffer);
 
         // First, cleanup the output to conform to the XPath standard,
         // which says no trailing '0's for the decimal portion.
